@@ -360,3 +360,85 @@ def unfresh_local_mutations(repo, prefixes):
             if bad:
                 out.append(f"{q}: `{recv}` is changed in place by `{how}` but may be {' / '.join(bad)}")
     return sites, out
+
+
+def plus_obligations(repo, chk, rule, why="other contexts and later activations never see it"):
+    """HandlerCollection.plus is a pure function of the receiver and its argument: one return of a constructor call over the receiver's
+    pairs followed by the new ones, and no store that outlives the call (no memo: a collection built while one context was current --
+    e.g. inside a suspended generator -- must not be handed out again under another)."""
+    import ast
+    from ..core import norm, walk_local
+    from ..astq import expand, returns_of
+    pl = repo.func("overlay.HandlerCollection.plus")
+    arg = pl.node.args.args[1].arg
+    rets = returns_of(pl.node)
+    vals = [ast.parse(expand(r.value, pl.node), mode="eval").body for r in rets if r.value is not None]
+    shape = len(rets) == 1 and len(vals) == 1 and isinstance(vals[0], ast.Call) and norm(vals[0].func) in ("type(self)", "self.__class__", "HandlerCollection") \
+        and len(vals[0].args) == 1 and not vals[0].keywords and norm(vals[0].args[0]) in (f"self.handler_pairs + {arg}", f"[*self.handler_pairs, *{arg}]", f"self.handler_pairs + list({arg})")
+    stores = [norm(n)[:60] for n in walk_local(pl.node) if (isinstance(n, (ast.Attribute, ast.Subscript)) and isinstance(n.ctx, (ast.Store, ast.Del)))
+              or isinstance(n, (ast.Global, ast.Nonlocal))
+              or (isinstance(n, ast.Call) and isinstance(n.func, ast.Attribute) and n.func.attr in MUTATING_METHODS)]
+    chk.ob(rule, "overlay.HandlerCollection.plus:a-new-collection-computed-from-receiver-and-argument-only", shape and not stores, pl.where,
+           f"plus returns a new collection holding the receiver's pairs followed by the added ones, computed afresh on every call and remembered nowhere, so {why}"
+           + (f" (returns {[norm(v) for v in vals]}; stores {stores})" if not (shape and not stores) else ""))
+
+
+def refused_enter_obligations(repo, chk, rule):
+    """Probe._enter: nothing that may raise runs after something was installed (tooling, handlers, registry membership) unless the
+    function releases it again on that path -- a refused activation leaves a probe that was never activated with nothing installed."""
+    from ..callgraph import CallGraph
+    from ..cfg import CFG
+    from ..core import norm
+    from ..pairing import classify_stmt, contextvars_of, node_probe, rollback_findings
+    cg = CallGraph(repo)
+    ctxvars = contextvars_of(repo)
+    fi = repo.func("probe.Probe._enter")
+    sites, findings = rollback_findings(fi, cg, ctxvars, None)
+    bad = {}
+    for res, acq, culprit, path in findings:
+        bad.setdefault((res, acq), []).append(culprit)
+    g = CFG(fi.node, cg.stmt_may_raise(fi))
+    n_acq = 0
+    for n in g.nodes:
+        pr = node_probe(n) if n.stmt is not None else None
+        for res, kind, detail in (classify_stmt(pr, ctxvars, None) if pr is not None else []):
+            if kind != "acq":
+                continue
+            n_acq += 1
+            acq = norm(pr)[:80]
+            culprits = bad.get((res, acq), [])
+            chk.ob(rule, f"probe.Probe._enter:a-refused-activation-leaves-nothing-installed[{res}:{acq}]", not culprits, fi.where,
+                   f"after `{acq}` nothing in _enter can fail without undoing it: a probe whose activation is refused holds no {res}"
+                   + (f" -- but {culprits} may raise afterwards" if culprits else ""))
+    if n_acq < 2:
+        from ..core import AnalysisError
+        raise AnalysisError(f"probe.Probe._enter: only {n_acq} acquisitions recognised (tooling, overlay, registry expected)")
+
+
+def closure_reference_obligations(repo, chk, rule, H=None):
+    """Every code variant of a function references every closure variable of the original (the generated prologue mentions each
+    one, whether or not it is instrumented): otherwise `fn.__code__ = variant` is refused by Python (ValueError: requires a code
+    object with N free vars) and activating a perfectly valid selector fails."""
+    from ..xform import query as Q
+    from ..xform.terms import Ident, Node, Star, walk
+    if H is None:
+        cls, H, stats = Q.templates(repo, chk.tier)
+    paths = H.get("visit_FunctionDef", [])
+    n_stars, bad = 0, []
+    for p in paths:
+        stars = [x for x in walk(p.template) if isinstance(x, Star) and "free[*]" in str(x.over)]
+        if not stars:
+            bad.append("a path without any per-closure-variable prologue")
+        for st in stars:
+            n_stars += 1
+            for dec, items in st.alts:
+                reads = [y for it in items for y in walk(it) if isinstance(y, Node) and y.cls == "Name" and isinstance(y.fields.get("id"), Ident)
+                         and y.fields["id"].path == "free[*]" and str(y.fields.get("ctx")) in ("Load", "K('Load')", "Load()")]
+                if not reads and not any("Name(ID(free[*]):Load)" in repr(it) for it in items):
+                    bad.append("{" + ",".join(f"{k}={v}" for k, v in dec) + "} emits nothing that reads the variable")
+    if not paths:
+        from ..core import AnalysisError
+        raise AnalysisError("no visit_FunctionDef templates")
+    chk.ob(rule, "visit_FunctionDef:every-variant-references-every-closure-variable", not bad and n_stars > 0, "ptera/transform.py (visit_FunctionDef)",
+           f"for every closure variable the prologue of every variant contains a read of it (the interaction when it is instrumented, a bare read otherwise; {n_stars} prologues in {len(paths)} paths), "
+           f"so each variant has the free variables of the original and can be installed as its code" + (f": {sorted(set(bad))}" if bad else ""))
